@@ -15,6 +15,10 @@ declare -A CHECKS=(
  [C15-1]="C15" [C15-2]="C15" [C16-1]="C16" [C16-2]="C16"
  [C17-1]="C17" [C17-2]="C17" [C18-1]="C18" [C18-2]="C18"
  [C19-1]="C19" [C19-2]="C19" [C20-1]="C20" [C20-2]="C20"
+ [C01-3]="C01 C02" [C01-4]="C01 C07" [C02-3]="C02 C07" [C02-4]="C02" [C03-3]="C03 C01" [C03-4]="C03 C07"
+ [C04-3]="C04" [C04-4]="C04 C10" [C05-3]="C05 C07" [C05-4]="C05" [C06-3]="C06 C04" [C06-4]="C06 C07"
+ [C07-3]="C07" [C07-4]="C07 C10 C02" [C08-3]="C08" [C08-4]="C08 C15" [C09-3]="C09" [C09-4]="C09"
+ [C10-3]="C10" [C10-4]="C10 C04" [C11-3]="C11 C09" [C11-4]="C11" [C13-3]="C13" [C13-4]="C13" [C20-3]="C20" [C20-4]="C20"
 )
 NAMES=${@:-$(ls /verif/seeded | grep -E '^C[0-9]+-[0-9]+$')}
 OUT=/verif/seeded/RESULTS.txt
